@@ -623,10 +623,13 @@ def _interaction_programs(ctx):
             "filter_of_filter": lambda: (lambda f: f[(f.d > 20) & (f.b > 1)])(m[m.a > 1]),
             "cross_predicate": lambda: m[(m.a > 1) & (m.a + m.d > 20)],
             "filter_proj_shared": lambda: m[(m.a > 1) & (m.d > 20)][["a"]].a + m[m.a > 1].a,
+            # the FIRST conjunct cannot be pushed into an input (other side of a left join / reads both inputs), the last can
+            "right_col_and_left_col": lambda: m[(m.d > 20) & (m.a > 1)],
+            "both_sides_and_left": lambda: m[(m.a < m.d) & (m.a > 1)],
         }
 
     out = []
-    for how in (("inner",) if ctx.quick else ("inner", "left", "right", "outer")):
+    for how in (("inner", "left") if ctx.quick else ("inner", "left", "right", "outer")):
         t = programs.dask_env()
         m = t["L"].merge(t["R"], on="b", how=how)
         out += [(f"j:{how}/{k}", fn) for k, fn in shapes(m).items()]
@@ -799,9 +802,17 @@ def counted_stages(counts):
         _core.Expr.simplify_once, _core.Expr.lower_once, _core.Expr.substitute = orig_s, orig_l, orig_sub
 
 
+class _AllJoins:
+    quick = False
+
+
 def _build(case):
     from harness import programs
 
+    if case.get("kind") == "interaction":
+        thunk = dict(_interaction_programs(_AllJoins))[case["program"]]
+        r = thunk()
+        return programs.Program(case["program"], None, True, ("interaction",), 2, True, False, True), (r if hasattr(r, "expr") else None)
     progs = {p.name: p for p in programs.valid_programs(case["depth"])}
     p = progs[case["program"]]
     env = programs.dask_env(case.get("cutsL"), case.get("cutsR"), case.get("known", True))
@@ -959,6 +970,11 @@ def run_case(case):
 
 
 def _cases(ctx, broken):
+    inter = [{"kind": "interaction", "program": lab} for lab, _ in _interaction_programs(ctx)]
+    return inter + _program_cases(ctx, broken)
+
+
+def _program_cases(ctx, broken):
     progs, idx = _program_slice(ctx, 200)
     layouts = [([0, 3, 6, 8], [0, 2, 6]), ([0, 8], [0, 6]), ([0, 2, 4, 6, 8], [0, 2, 4, 6])]
     cases = []
@@ -1011,7 +1027,7 @@ def support(ctx, broken):
     # cross-process names (one batch per seed): a slice of the programs plus the fusion corpus
     from harness.props import c14
 
-    xcases = [c for c in cases if c["cutsL"] == [0, 3, 6, 8]][: (60 if ctx.quick else 2500)]
+    xcases = [c for c in cases if c.get("cutsL") == [0, 3, 6, 8]][: (60 if ctx.quick else 2500)]
     xcases += [{"kind": "query", "query": name} for name, _ in c14.real_queries() if "/n2/" in name or not ctx.quick]
     try:
         fails, n = cross_process_failures(xcases)
